@@ -6,8 +6,10 @@
    Reading guide.  A store holds pulse objects (shallow / deep copies, fresh pulses).  [Call i o k] is the
    public operation o on object i; k = Some n makes the (n+1)-th call into numeric code raise, k = never
    (None) injects nothing.  A cached value carries a ghost tag: TF g = "is the correct value for the
-   frequency grid g", TI = frequency independent, TBad = wrong data.  [gop_ok] = user-supplied arrays are what
-   the caller says (the only hypothesis on histories).                                                   *)
+   frequency grid g", TI = frequency independent, TBad = wrong data, TE e / TFE g e = expressed in an
+   eigen-decomposition other than the one numeric.diagonalize returns.  [gop_ok] = the two hypotheses on
+   histories: user-supplied arrays are what the caller says, and no object made by extend / remap with cached
+   diagonalization (FreshExtended) takes part -- for those the statement is REFUTED, C07_extended_refuted. *)
 From Coq Require Import List Bool Arith NArith.
 From FF Require Import Extracted.Src Model.Cache Model.Tie.C07 Proofs.Cache.
 Import ListNotations.
@@ -106,6 +108,43 @@ Theorem C07_correct_user_data_needed :
   forallb gop_ok hist_d = false /\ ~ Coherent (run_with fixed hist_d) /\
   result_with fixed (run_with fixed hist_d) (Call 0 (GetCM g1 false) never) = Ret (Some (TBad 4, Served)).
 Proof. exact correct_user_data_needed. Qed.
+
+(* REFUTED (finding c07-eig-intermediates, reproduced on the implementation): on a pulse made by extend(...) with
+   cached diagonalization (object 1 of hist_x), after get_control_matrix(omega, cache_intermediates=True) and
+   cleanup('conservative'), the second-order filter function, the filter-function derivative and the second-order
+   cumulant function for the SAME frequencies are computed from intermediates expressed in the dropped eigenbasis
+   and freshly computed eigen-data; without the clean-up, or on a plain pulse, the same requests are correct. *)
+Theorem C07_extended_refuted :
+  forallb gop_ok hist_x = false /\
+  result_with fixed (run_with fixed hist_x) (Call 1 (GetFF g1 Fidelity Second false) never) = Ret (Some (TBad 4, Computed)) /\
+  result_with fixed (run_with fixed hist_x) (Call 1 (GetDeriv g1) never) = Ret (Some (TBad 4, Computed)) /\
+  result_with fixed (run_with fixed hist_x) (Call 1 (Cumulant g1 Total true None) never) = Ret (Some (TBad 4, Computed)) /\
+  result_with fixed (run_with fixed [FreshExtended; Call 1 (GetCM g1 true) never])
+              (Call 1 (GetFF g1 Fidelity Second false) never) = Ret (Some (TF g1, Computed)) /\
+  result_with fixed (run_with fixed [Fresh; Call 1 (GetCM g1 true) never; Call 1 (Cleanup Conservative) never])
+              (Call 1 (GetFF g1 Fidelity Second false) never) = Ret (Some (TF g1, Computed)).
+Proof. exact extended_refuted. Qed.
+(* the proposed repair (cleanup('conservative') also removes n_opers_transformed, basis_transformed and
+   first_order_integral) gives the right values on these witnesses *)
+Theorem C07_extended_repaired :
+  result_with proposed (run_with proposed hist_x) (Call 1 (GetFF g1 Fidelity Second false) never) = Ret (Some (TF g1, Computed)) /\
+  result_with proposed (run_with proposed hist_x) (Call 1 (GetDeriv g1) never) = Ret (Some (TF g1, Computed)) /\
+  result_with proposed (run_with proposed hist_x) (Call 1 (Cumulant g1 Total true None) never) = Ret (Some (TF g1, Computed)).
+Proof. exact extended_repaired. Qed.
+
+(* REFUTED outside the abstraction "grids are immutable values" (finding c07-omega-alias): the object keeps a
+   reference to the caller's frequency array; after the caller has overwritten it in place with g', a request
+   with that array is served the filter function of the old grid g.  With a private copy it is not. *)
+Theorem C07_omega_alias_refuted : forall g g', g <> g' ->
+  let s1 := fst (astep (ainit g) ARequest) in
+  let s2 := fst (astep s1 (AMutate g')) in
+  cell s2 = g' /\ snd (astep s2 ARequest) = Some g.
+Proof. exact omega_alias_refuted. Qed.
+Theorem C07_omega_copy_repaired : forall g g', g <> g' ->
+  let s1 := fst (astep_copy (ainit g, g) ARequest) in
+  let s2 := fst (astep_copy s1 (AMutate g')) in
+  snd (astep_copy s2 ARequest) = Some g'.
+Proof. exact omega_copy_repaired. Qed.
 
 (* the hypotheses are satisfiable on a non-trivial store (three objects, intermediates, an aborted call) *)
 Example C07_hypotheses_satisfiable :
